@@ -9,6 +9,7 @@ RULE = ('join correspondence: (hook level, feature verif_hooks) Line::extents, L
         'sharp angles, coordinates on both sides of the axes and up to +-300) through Polyline.into_styled(w).pixels() (exact order), '
         'draw() (exact fill_solid rectangles) and the styled bounding box; thick triangles (all alignments, with and without fill, sharp and nearly '
         'flat ones) through pixels(), draw() and the styled bounding box; model = extracted Model/Join.v + Model/JoinTri.v. '
+        'search p_translate (suite of C07.py) on thick triangles / polylines with coordinates within +-12 moved across the axes (join rounding ties); '
         'search p_thick: pixels() = draw(), all pixels inside the styled bounding box, and for strokes with segments >= 6 widths and interior '
         'angles >= 15 degrees a real-number reference: every stroke pixel lies within 1.2 * reach + 1.5 of a segment or within the miter limit '
         '(2 widths + 2) of a join, and the inner 55 percent of the stroke band along every segment is covered')
@@ -165,7 +166,24 @@ def tame_path(rng, w, n, closed=False):
     return pts
 
 
+def translate_cases(tier, rng):
+    """p_translate (harness/src/suites/c07.rs) aimed at the join rounding: thick triangles / polylines with small coordinates around
+    the origin (rounding ties x.5 of the join corners are frequent there, and their sign changes across the axes), moved across the axes"""
+    n = 2500 if tier == 'quick' else 50000
+    for _ in range(n):
+        w = rng.choice([2, 3, 4, 4, 5, 6, 8])
+        d = (rng.randrange(-40, 41), rng.randrange(-40, 41)) if rng.random() < 0.8 else (rng.randrange(-3000, 3001), rng.randrange(-3000, 3001))
+        if rng.random() < 0.5:
+            v = [rng.randrange(-12, 13) for _ in range(6)]
+            yield J('p_translate', *d, 'tri', *v, 'S', rng.randrange(2), 1, w, rng.randrange(3))
+        else:
+            k = rng.choice([3, 3, 4, 5])
+            v = [rng.randrange(-12, 13) for _ in range(2 * k)]
+            yield J('p_translate', *d, 'poly', 0, 0, k, *v, 'S', 0, 1, w, 1)
+
+
 def search(tier, rng):
+    yield from translate_cases(tier, rng)
     n = 2500 if tier == 'quick' else 50000
     for _ in range(n):
         w = rng.choice([2, 3, 3, 4, 5, 6, 7, 8, 10, 12])
